@@ -112,6 +112,17 @@ def run(ctx, scale=1):
         "select a1 -- /* not a block\n , b2 /* real */ , c3 from t4", "select `a/*b`, c2, `d*/e` from t3", "select a1 # /* x\n , b2 from t3 /* y */ where c4 = 5",
         "select 'a;b', c2, 'd;e' from t3; select f4 from g5", "select a1, '*/', b2, '/*', c3 from t4", "select \"x/*y\", b2, \"z*/w\" from t3",
     ]]
+    # a query with its own ORDER BY / LIMIT / OFFSET / FETCH inside parentheses that wrap it directly (the tail belongs
+    # to the parenthesised query, not to an enclosing set operation): as a statement, doubled in FROM / IN, as the
+    # source of INSERT / CREATE TABLE AS, behind a CTE
+    tails = ["order by b2 limit 3", "order by b2 desc", "limit 7 offset 2", "order by b2, c3 limit 4 offset 5", "fetch first 6 rows only", "order by b2 offset 9"]
+    wrapped = []
+    for i, tl in enumerate(tails):
+        q = "select a1 from t9 where d4 = %d %s" % (40 + i, tl)
+        wrapped += ["(%s)" % q, "((%s))" % q, "select x5 from ((%s)) y6" % q, "select x5 from t7 where z8 in ((%s))" % q,
+                    "insert into n5 (%s)" % q, "create table n5 as (%s)" % q, "with w6 as (select 1 as x7) (%s)" % q,
+                    "(%s) union all select e5 from u6" % q, "select e5 from u6 union (%s)" % q, "(%s) order by f7" % q]
+    stmts += [{"sql": q, "dialect": "common", "origin": "wrapped-tail"} for q in wrapped]
     # the same statements with comments between tokens (several per statement: an identifier must not get lost
     # between two comments either)
     from props import c09
